@@ -36,6 +36,9 @@ GNext ==
   \/ (On("Load") /\ \E s \in Slots : Load(s) /\ Rec("Load", [d |-> s]))
   \/ (On("Destroy") /\ \E s \in Slots : Destroy(s) /\ Rec("Destroy", [s |-> s]))
   \/ (On("Convert") /\ \E d \in Slots, s \in Slots, ty \in Types : Convert(d, s, ty) /\ Rec("Convert", [d |-> d, s |-> s, ty |-> ty]))
+  \/ (On("ConvertMove") /\ \E d \in Slots, s \in Slots, ty \in Types : ConvertMove(d, s, ty) /\ Rec("ConvertMove", [d |-> d, s |-> s, ty |-> ty]))
+  \/ (On("DefaultConstruct") /\ \E s \in ConstructSlots, ty \in Types : \E e \in ExtChoices :
+        DefaultConstruct(s, ty, Len(e)) /\ Rec("DefaultConstruct", [s |-> s, ty |-> ty, n |-> Len(e)]))
 GSpec == GInit /\ [][GNext]_gvars
 
 EmitHist == (EmitAll \/ ops' = MaxOps) =>
